@@ -652,6 +652,11 @@ class SymInt:
         self == q*o + r and 0 <= r < o (q and r are uniquely determined, so this is exact); the solver then
         needs a constant multiplier instead of a divider circuit"""
         ex = CUR
+        ck = (self.e.get_id(), o)
+        hit = ex.div_cache.get(ck)
+        if hit is not None:
+            Q, R = hit[1], hit[2]
+            return Q if want == "q" else (R if want == "r" else (Q, R))
         qlo, qhi = self.lo // o, self.hi // o
         if qhi - qlo <= 8:
             # few possible quotients (typical of modular reduction after an addition): comparisons instead of a multiplier
@@ -684,6 +689,7 @@ class SymInt:
         ex.model = None
         Q = mk_int(q, qlo, qhi)
         R = mk_int(z3.ZeroExt(1, r), 0, o - 1)
+        ex.div_cache[ck] = (self.e, Q, R)     # the same dividend term divided again yields the same quotient / remainder terms
         if want == "q":
             return Q
         if want == "r":
@@ -1117,6 +1123,7 @@ class Explorer:
         self.prefix_model = model
         self.decisions = []
         self.decided = {}
+        self.div_cache = {}
         self.pc = []
         self._model = None
         self._model_pc_len = 0
